@@ -276,6 +276,9 @@ func diffJSON(what string, a, b any) string {
 type Case struct {
 	K    int                 `json:"k"`
 	Cuts map[int]crashfs.Cut `json:"cuts,omitempty"`
+	// Then, if set, is a second crash: the process restarted on the state above
+	// stops again before op Then.K of ITS op log (genesis ops + recovery writes).
+	Then *Case `json:"then,omitempty"`
 }
 
 func (c Case) String() string {
@@ -286,7 +289,10 @@ func (c Case) String() string {
 	sort.Ints(inos)
 	s := fmt.Sprintf("k=%d", c.K)
 	for _, i := range inos {
-		s += fmt.Sprintf(" ino%d:keep(ops=%d,bytes=%d)", i, c.Cuts[i].Ops, c.Cuts[i].Bytes)
+		s += fmt.Sprintf(" ino%d:keep(ops=%d,bytes=%d,zero=%v)", i, c.Cuts[i].Ops, c.Cuts[i].Bytes, c.Cuts[i].Zero)
+	}
+	if c.Then != nil {
+		s += " then{" + c.Then.String() + "}"
 	}
 	return s
 }
@@ -305,6 +311,7 @@ type outcome struct {
 	createsLost int // CreateTopics/CreatePartitions acknowledged <= k but not visible (counted, not asserted)
 	createsKept int
 	snap        *Snap
+	recEnd      int // op-log length of fs when NewCluster had returned (recovery writes end here)
 }
 
 // checkCrash restarts kfake on the materialised state and checks the crash half
@@ -318,6 +325,7 @@ func checkCrash(m *Model, fs *crashfs.FS, k int) (out outcome, err error) {
 		return out, violf("restart failed: kfake.NewCluster on the crash state returned: %v", serr)
 	}
 	defer n.stop()
+	out.recEnd = fs.Len()
 	s, rerr := snapshot(n, m, false)
 	if rerr != nil {
 		if isInfra(rerr) {
@@ -461,4 +469,28 @@ func checkCrash(m *Model, fs *crashfs.FS, k int) (out outcome, err error) {
 		}
 	}
 	return out, nil
+}
+
+// inFlightPIDs returns the producer ids that have a transactional data batch
+// without a later control batch in some partition log of the snapshot: their
+// transaction was in flight when the process stopped.
+func inFlightPIDs(s *Snap) map[int64]bool {
+	out := map[int64]bool{}
+	for _, ps := range s.Parts {
+		open := map[int64]bool{}
+		for _, b := range ps.Batches {
+			attrs := binary.BigEndian.Uint16(b[21:23])
+			pid := int64(binary.BigEndian.Uint64(b[43:51]))
+			switch {
+			case attrs&0x20 != 0:
+				delete(open, pid)
+			case attrs&0x10 != 0:
+				open[pid] = true
+			}
+		}
+		for pid := range open {
+			out[pid] = true
+		}
+	}
+	return out
 }
